@@ -110,6 +110,11 @@ class AtomTheory:
 
     def getattr(self, interp, st, v, name, node=None):
         a = v.expr
+        first = st.ghost.get("atom_attr_first")
+        if first is not None:
+            r = first(interp, st, v, name, node)
+            if r is not NotImplemented:
+                return r
         if name == "element":
             if st.branch(KIND(a) == 0):
                 _raise("AttributeError", "'Element' object has no attribute 'element'", node)
@@ -148,6 +153,9 @@ class AtomTheory:
         raise Unsupported("atom attribute %s" % name)
 
     def setattr(self, interp, st, v, name, value, node=None):
+        h = st.ghost.get("atom_setattr")
+        if h is not None:
+            return h(interp, st, v, name, value, node)
         raise Unsupported("store to atom attribute %s" % name)
 
     def contains(self, interp, st, c, item):
